@@ -55,7 +55,7 @@ def _run_base(ctx):
              floor=4, floor_what='four disable functions')
     ctx.rule('R18.3', 'driver disable removes exactly the section the driver enable registers', floor=2)
     ctx.rule('R18.4', 'attributes file: marker test before append, mode a, one line, marker names the registered driver',
-             floor=5)
+             floor=4)
     ctx.rule('R18.5', 'config-git runs all four commands and propagates the first failure', floor=1)
 
     enable_sections = {}
@@ -131,7 +131,8 @@ def _run_base(ctx):
                 guards = cond_guards(g, st)
                 ok = False
                 for t, pol in guards:
-                    if not pol or not isinstance(t, ast.Compare) or not isinstance(t.ops[0], ast.Eq):
+                    # `if tool == 'nbdime': unset`  or the guard-clause form  `if tool != 'nbdime': return` ... unset
+                    if not isinstance(t, ast.Compare) or not (pol and isinstance(t.ops[0], ast.Eq) or not pol and isinstance(t.ops[0], ast.NotEq)):
                         continue
                     sides = [t.left, t.comparators[0]]
                     if not any(isinstance(s, ast.Constant) and s.value == 'nbdime' for s in sides):
